@@ -211,6 +211,33 @@ def build(cfg, combo):
     return ActiveTagMatcher(prov, **kw), [], cells
 
 
+POKES = ["get", "get_none", "get_text", "get_unknown", "print"]
+
+
+def poke(providers, names, how):
+    """plain lookups on the value provider objects, as environment files and user code do them (get with several
+    defaults, print_active_tags): a lookup must never change what the provider knows"""
+    import contextlib
+    import io
+    from behave._types import Unknown
+    from behave.tag_matcher import print_active_tags
+    for prov in providers:
+        if prov is None:
+            continue
+        for name in names:
+            if how == "get":
+                prov.get(name)
+            elif how == "get_none":
+                prov.get(name, None)
+            elif how == "get_text":
+                prov.get(name, "c19-default")
+            elif how == "get_unknown":
+                prov.get(name, Unknown)
+        if how == "print":
+            with contextlib.redirect_stdout(io.StringIO()):
+                print_active_tags(prov, list(names))
+
+
 def observe(rid, cfg, tags):
     """one row: all combinations of current values for one concrete tag list under one configuration"""
     P = cfg.P()
@@ -232,13 +259,24 @@ def observe(rid, cfg, tags):
     row = {"id": rid, "cfg": cfg.name, "P": [chars(p) for p in P], "N": [chars(P[1]), chars(P[3])], "sep": chars(cfg.S()),
            "tags": [chars(t) for t in tags], "warm": [chars(t) for t in warm], "pk": cfg.pk, "mpk": list(cfg.mpk),
            "mk": cfg.mk, "nm": cfg.nm, "ign": cfg.ign is not False, "judge": bool(cfg.judge), "cats": cats, "combos": combos,
-           "combos2": combos2, "ex": [], "run": [], "ex2": [], "mex": [], "exc": [], "ex3": [], "run3": [], "mex3": []}
+           "combos2": combos2, "ex": [], "run": [], "ex2": [], "mex": [], "exc": [], "ex3": [], "run3": [], "mex3": [],
+           "ex4": [], "run4": [], "mex4": []}
+    # phase 3: plain lookups (known and unknown categories) on the same provider objects, then the decisions again;
+    # every second row also starts with these lookups, on the fresh provider, before the first decision
+    how = POKES[rid % len(POKES)]
+    pnames = [cfg.cats[0], cfg.cats[2], cfg.cats[1]]
+    row["poke"] = how
+    row["pokes"] = [chars(n) for n in pnames]
+    row["pre"] = (rid // len(POKES)) % 2 == 0
     for combo, combo2 in zip(combos, combos2):
-        ex = run = ex2 = ex3 = run3 = False
-        mex, mex3 = [], []
+        ex = run = ex2 = ex3 = run3 = ex4 = run4 = False
+        mex, mex3, mex4 = [], [], []
         exc = ""
         try:
             m, members, cells = build(cfg, combo)
+            provs = [getattr(x, "value_provider", None) for x in (members or [m])]
+            if row["pre"]:
+                poke(provs, pnames, how)
             ex = bool(m.should_exclude_with(list(tags)))
             run = bool(m.should_run_with(list(tags)))
             mex = [bool(x.should_exclude_with(list(tags))) for x in members]
@@ -250,12 +288,18 @@ def observe(rid, cfg, tags):
             ex3 = bool(m.should_exclude_with(list(tags)))
             run3 = bool(m.should_run_with(list(tags)))
             mex3 = [bool(x.should_exclude_with(list(tags))) for x in members]
+            poke(provs, pnames, how)
+            ex4 = bool(m.should_exclude_with(list(tags)))
+            run4 = bool(m.should_run_with(list(tags)))
+            mex4 = [bool(x.should_exclude_with(list(tags))) for x in members]
         except Exception as e:                                   # recorded, judged by the clauses (R4)
             exc = type(e).__name__
             mex = [False] * cfg.nm
             mex3 = [False] * cfg.nm
+            mex4 = [False] * cfg.nm
         row["ex"].append(ex); row["run"].append(run); row["ex2"].append(ex2); row["mex"].append(mex); row["exc"].append(exc)
         row["ex3"].append(ex3); row["run3"].append(run3); row["mex3"].append(mex3)
+        row["ex4"].append(ex4); row["run4"].append(run4); row["mex4"].append(mex4)
     return row
 
 
@@ -286,8 +330,9 @@ def observe_python_provider(rid, rnd, tags=None, comp=None):
            "sep": ["="], "tags": [chars(t) for t in tags], "warm": [chars("use.with_python3=yes")],
            "pk": "comp" if comp else "dict", "mpk": ["dict", "dict"] if comp else [], "mk": "single", "nm": 0, "ign": True,
            "judge": True, "cats": cats, "combos": [[1] * len(cats)], "combos2": [[1] * len(cats)], "ex": [], "run": [], "ex2": [],
-           "mex": [[]], "exc": [], "ex3": [], "run3": [], "mex3": [[]]}
-    ex = run = ex2 = ex3 = run3 = False
+           "mex": [[]], "exc": [], "ex3": [], "run3": [], "mex3": [[]], "ex4": [], "run4": [], "mex4": [[]],
+           "poke": POKES[rid % len(POKES)], "pokes": [chars("python3"), chars("python.unknown")], "pre": False}
+    ex = run = ex2 = ex3 = run3 = ex4 = run4 = False
     exc = ""
     try:
         merged = dict(PY)
@@ -299,9 +344,13 @@ def observe_python_provider(rid, rnd, tags=None, comp=None):
         ex2 = bool(m.should_exclude_with(list(tags)))
         ex3 = bool(m.should_exclude_with(list(tags)))
         run3 = bool(m.should_run_with(list(tags)))
+        poke([m.value_provider], ["python3", "python.unknown"], row["poke"])
+        ex4 = bool(m.should_exclude_with(list(tags)))
+        run4 = bool(m.should_run_with(list(tags)))
     except Exception as e:
         exc = type(e).__name__
     row["ex"], row["run"], row["ex2"], row["exc"], row["ex3"], row["run3"] = [ex], [run], [ex2], [exc], [ex3], [run3]
+    row["ex4"], row["run4"] = [ex4], [run4]
     return row, tags
 
 
@@ -338,19 +387,25 @@ def judge_and_report(chk, rows, meta, chunks):
             clause, j, what, phase = v[2], v[3], v[4], v[5]
             if phase == 2:
                 what += "@changed"
+            elif phase == 3:
+                what += "@looked_up"
+            elif row.get("pre") and clause != "C19.run_is_negation":
+                what += "@after_lookup"
             pk = row["pk"] + (":" + "+".join(row["mpk"]) if row["pk"] == "comp" else "")
             sig = "%s|%s|pk=%s|mk=%s" % (clause, what, pk, row["mk"])
             if clause == "C19.value_objects":
                 sig += "|vo=" + "+".join(sorted({"%s:%s" % (c["kind"], c["op"]) for c in row["cats"] if c["vo"]}))
-            combo = row["combos2" if phase == 2 else "combos"][j - 1]
+            combo = row["combos2" if phase >= 2 else "combos"][j - 1]
             cur = {"".join(c["name"]) + ("#%d" % c["mem"] if row["cfg"] == "comp_overlap" else ""): _show(c, c["ch"][combo[k] - 1])
                    for k, c in enumerate(row["cats"])}
             detail = ("tags=%s current=%s cfg=%s(provider=%s,matcher=%s) observed exclude=%s run=%s again=%s members=%s exc=%r; "
-                      "after the lazy values changed to index %s: exclude=%s run=%s members=%s") % (
+                      "after the lazy values changed to index %s: exclude=%s run=%s members=%s; plain lookups (%s of %s, also before the "
+                      "first call: %s) then: exclude=%s run=%s members=%s") % (
                 json.dumps(m["tags"]), json.dumps(cur, sort_keys=True), row["cfg"], row["pk"], row["mk"], row["ex"][j - 1],
                 row["run"][j - 1], row["ex2"][j - 1], row["mex"][j - 1], row["exc"][j - 1], row["combos2"][j - 1],
-                row["ex3"][j - 1], row["run3"][j - 1], row["mex3"][j - 1])
-            chk.violation(clause, sig, detail, {"cfg": row["cfg"], "tags": m["tags"], "comp": row["pk"] == "comp"})
+                row["ex3"][j - 1], row["run3"][j - 1], row["mex3"][j - 1], row["poke"], ["".join(x) for x in row["pokes"]],
+                row["pre"], row["ex4"][j - 1], row["run4"][j - 1], row["mex4"][j - 1])
+            chk.violation(clause, sig, detail, {"cfg": row["cfg"], "tags": m["tags"], "comp": row["pk"] == "comp", "rid": row["id"]})
     return verdicts
 
 
@@ -434,7 +489,7 @@ def run(chk):
         meta[rid] = {"tags": tags}
     judge_and_report(chk, rows, meta, chunks=WORKERS)
     chk.impl_traces = sum(len(row["combos"]) for row in rows)
-    chk.evaluations = chk.impl_traces * 6
+    chk.evaluations = chk.impl_traces * 8
     for row in (rows[len(rows) // 5], rows[len(rows) // 3 + 1], rows[-1]):
         chk.sample({"cfg": row["cfg"], "tags": meta[row["id"]]["tags"], "exclude_per_value_combination": row["ex"]})
     chk.rule = ("every multiset of <= %d tags of the 30-tag pool (5 prefixes x (2 known categories x 2 values + 1 unknown "
@@ -459,9 +514,11 @@ def replay(chk, payload):
     silence_logging()
     p = payload["replay"]
     if p["cfg"] == "python_provider":
-        row, _ = observe_python_provider(1, random.Random(0), tags=list(p["tags"]), comp=bool(p.get("comp")))
+        row, _ = observe_python_provider(int(p.get("rid") or 1), random.Random(0), tags=list(p["tags"]), comp=bool(p.get("comp")))
+        row["id"] = 1
     else:
-        row = observe(1, CFG[p["cfg"]], list(p["tags"]))
+        row = observe(int(p.get("rid") or 1), CFG[p["cfg"]], list(p["tags"]))       # rid selects the lookup variant
+        row["id"] = 1
     judge_and_report(chk, [row], {1: {"tags": list(p["tags"])}}, chunks=1)
     chk.impl_traces = len(row["combos"])
     chk.sample({"replayed": p, "exclude_per_value_combination": row["ex"]})
